@@ -29,7 +29,12 @@ RULE = ("seeded generator over signatures (0-6 positional-or-keyword parameters 
         "1-3 x histories of 6-14 (quick) / 10-30 (thorough) operations: call with dict or Points holding a random "
         "superset of the needed names in random order, call lacking a required name, partially_evaluate (value / "
         "wrapper branch, then completion), set_default, remove_default, deepcopy, re-wrap, second wrapper of the same "
-        "function; optional 'accumulating default' variant whose function mutates its own mutable default. "
+        "function; optional 'accumulating default' variant whose function mutates its own mutable default; in about a "
+        "quarter of the cases the user's function is a FAMILY of 2-4 function objects that share one code object "
+        "(closures of one factory / defined in a loop / types.FunctionType copies) with identical signatures and "
+        "different default values (numbers, None, tensors, lists), wrapped one after the other as UserFunction and "
+        "DomainUserFunction in random order and interleaved with calls, each judged by inspect.signature of its own "
+        "function object. "
         "A case is non-trivial when at least one call was judged argument by argument; distinct = (class, #params, "
         "#defaults, default kinds, construction, variant)")
 REQUIRED_REACH = ["UserFunction._set_input_args_for_function", "UserFunction.__call__", "DomainUserFunction.__call__",
@@ -64,6 +69,7 @@ MAX_VIOL = 6
 
 def gen_cases(seed, tier):
     rng = np.random.default_rng([seed, 13])
+    rng_f = np.random.default_rng([seed, 13, 1])          # shared-code families (independent stream)
     n = 400 if tier == "quick" else 20000
     cases = []
     for i in range(n):
@@ -82,6 +88,10 @@ def gen_cases(seed, tier):
                       "lam": bool(rng.random() < 0.25), "n": int(rng.integers(1, 6)),
                       "nb2": bool(rng.random() < 0.12), "n_ops": int(rng.integers(lo, hi + 1)),
                       "seed": int(rng.integers(0, 2**31))})
+        fam, fam_n = str(rng_f.choice(["factory", "loop", "copy"])), int(rng_f.integers(2, 5))
+        use = rng_f.random() < (0.5 if ndef >= 1 else 0.08)
+        if use and construct == "plain" and variant == "pure":
+            cases[-1]["family"], cases[-1]["fam_n"] = fam, fam_n
     return cases
 
 
@@ -114,7 +124,8 @@ def short(s):
 class RefWrapper:
     """immutable-by-convention reference of one wrapper value: updated only by operations on that wrapper"""
 
-    def __init__(self, args, defaults, group, pristine, cls, const=None, is_const=False):
+    def __init__(self, args, defaults, group, pristine, cls, const=None, is_const=False, fidx=0):
+        self.fidx = fidx                        # which function object of the case's family is wrapped
         self.args = list(args)
         self.defaults = dict(defaults)          # name -> content snapshot
         self.group = group
@@ -125,7 +136,8 @@ class RefWrapper:
         self.is_const = is_const
 
     def clone(self, group, cls=None):
-        r = RefWrapper(self.args, self.defaults, group, self.pristine, cls or self.cls, self.const, self.is_const)
+        r = RefWrapper(self.args, self.defaults, group, self.pristine, cls or self.cls, self.const, self.is_const,
+                       self.fidx)
         r.removed = set(self.removed)
         return r
 
@@ -238,37 +250,81 @@ class Monitor:
         return out
 
     def build_function(self):
+        """the user's function(s).  `family`: 2-4 function OBJECTS that share one code object (closures of one factory,
+        functions defined in a loop, types.FunctionType copies) with identical signatures and different default values;
+        otherwise one function from its own exec'd source.  self.fam[j] = {"f", "sig", "declared", "snapshot"}"""
         c = self.c
-        nreq = len(self.names) - c["ndef"]
-        ns = {"_HOOK": self.hook}
-        params = []
-        self.declared = {}
-        for i, n in enumerate(self.names):
-            if i >= nreq:
-                d = self.make_default(n, c["kinds"][i - nreq])
-                ns["_d%d" % i] = d
-                self.declared[n] = d
-                params.append("%s=_d%d" % (n, i))
-            else:
-                params.append(n)
-        body = "_HOOK({%s})" % ", ".join("%r: %s" % (n, n) for n in self.names)
+        names = self.names
+        nreq = len(names) - c["ndef"]
+        family = c.get("family")
+        m = int(c.get("fam_n", 1)) if family else 1
+
+        def defaults_for(j):
+            out = []
+            for i in range(nreq, len(names)):
+                kind = c["kinds"][i - nreq]
+                if j > 0 and kind == "none" and self.rng.random() < 0.5:
+                    kind = "num"                  # None in one sibling, a number in another: same signature
+                out.append(self.make_default(names[i], kind))
+            return out
+        defs = [defaults_for(j) for j in range(m)]
+        body = "_HOOK({%s})" % ", ".join("%r: %s" % (n, n) for n in names)
         fname = "user_fn_%d" % (c["seed"] % 1000)
-        if c["lam"]:
-            src = "%s = lambda %s: %s\n" % (fname, ", ".join(params), body)
+
+        def params(expr):
+            return ", ".join([n for n in names[:nreq]] + ["%s=%s" % (n, expr(i - nreq)) for i, n in
+                                                          enumerate(names) if i >= nreq])
+        ns = {"_HOOK": self.hook}
+        if family == "factory":
+            inner = ("    return lambda %s: %s\n" % (params(lambda k: "_d[%d]" % k), body)) if c["lam"] else (
+                "    def %s(%s):\n        return %s\n    return %s\n" % (fname, params(lambda k: "_d[%d]" % k), body, fname))
+            src = "def _make(_HOOK, _d):\n" + inner
+            exec(compile(src, "<generated user function factory>", "exec"), ns)
+            fs = [ns["_make"](self.hook, tuple(d)) for d in defs]
+        elif family == "loop":
+            ns["_DEFS"] = [tuple(d) for d in defs]
+            ns["_FS"] = []
+            one = ("    _FS.append(lambda %s: %s)\n" % (params(lambda k: "_d[%d]" % k), body)) if c["lam"] else (
+                "    def %s(%s):\n        return %s\n    _FS.append(%s)\n" % (fname, params(lambda k: "_d[%d]" % k), body, fname))
+            exec(compile("for _d in _DEFS:\n" + one, "<generated user functions in a loop>", "exec"), ns)
+            fs = list(ns["_FS"])
         else:
-            src = "def %s(%s):\n    return %s\n" % (fname, ", ".join(params), body)
-        exec(compile(src, "<generated user function>", "exec"), ns)
-        self.f = ns[fname]
+            for k, d in enumerate(defs[0]):
+                ns["_d%d" % k] = d
+            if c["lam"]:
+                src = "%s = lambda %s: %s\n" % (fname, params(lambda k: "_d%d" % k), body)
+            else:
+                src = "def %s(%s):\n    return %s\n" % (fname, params(lambda k: "_d%d" % k), body)
+            exec(compile(src, "<generated user function>", "exec"), ns)
+            fs = [ns[fname]]
+            for d in defs[1:]:                    # family == "copy": same code object, other __defaults__
+                fs.append(types.FunctionType(fs[0].__code__, fs[0].__globals__, fs[0].__name__, tuple(d) or None,
+                                             fs[0].__closure__))
+        if family and len({id(f.__code__) for f in fs}) != 1:
+            raise Inconclusive("the generated family does not share one code object")
         self.sigtext = "(%s)" % ", ".join("%s=<%s>" % (n, c["kinds"][i - nreq]) if i >= nreq else n
-                                           for i, n in enumerate(self.names))
-        self.sig = inspect.signature(self.f)
-        kinds = {p.kind for p in self.sig.parameters.values()}
-        if kinds - {inspect.Parameter.POSITIONAL_OR_KEYWORD}:
-            raise Inconclusive("generated function has other parameter kinds")
-        self.f_snapshot = (self.f.__code__, self.f.__defaults__, tuple(self.f.__defaults__ or ()),
-                           self.f.__kwdefaults__, dict(self.f.__dict__), self.f.__name__)
+                                           for i, n in enumerate(names))
+        if family:
+            self.sigtext += " [%d functions sharing one code object: %s]" % (m, family)
+        self.fam = []
+        for f, d in zip(fs, defs):
+            sig = inspect.signature(f)
+            if list(sig.parameters) != names or {p.kind for p in sig.parameters.values()} - {
+                    inspect.Parameter.POSITIONAL_OR_KEYWORD}:
+                raise Inconclusive("generated function has another signature than planned")
+            got = [p.default for p in sig.parameters.values() if p.default is not inspect.Parameter.empty]
+            if len(got) != len(d) or any(a is not b for a, b in zip(got, d)):
+                raise Inconclusive("generated function does not declare the planned default objects")
+            self.fam.append({"f": f, "sig": sig, "declared": dict(zip(names[nreq:], d)),
+                             "snapshot": (f.__code__, f.__defaults__, tuple(f.__defaults__ or ()), f.__kwdefaults__,
+                                          dict(f.__dict__), f.__name__)})
+        self.declared = self.fam[0]["declared"]          # same names in every member
+        self.wrapped_order = []
+        if family:
+            self.count("family_cases_" + family)
+            self.count("family_functions", m)
         if c["variant"] == "accumulate":
-            cands = [n for i, n in enumerate(self.names) if i >= nreq and c["kinds"][i - nreq] in ("list", "tensor")]
+            cands = [n for i, n in enumerate(names) if i >= nreq and c["kinds"][i - nreq] in ("list", "tensor")]
             self.acc = str(self.rng.choice(cands)) if cands else None
 
     # ---- wrappers ---------------------------------------------------------------------------------------
@@ -288,12 +344,15 @@ class Monitor:
         self.group_counter += 1
         return self.group_counter
 
-    def pristine_ref(self, cls):
+    def pristine_ref(self, cls, fidx=0):
+        """reference of a fresh wrapper: Python's own view (inspect.signature) of THAT function object"""
+        sig = self.fam[fidx]["sig"]
         dflt = {}
-        for n, p in self.sig.parameters.items():
+        for n, p in sig.parameters.items():
             if p.default is not inspect.Parameter.empty:
                 dflt[n] = snap(p.default)
-        return RefWrapper(list(self.sig.parameters), dflt, self.new_group(), True, cls)
+        self.wrapped_order.append(fidx)
+        return RefWrapper(list(sig.parameters), dflt, self.new_group(), True, cls, fidx=fidx)
 
     def check_wrapper(self, w, ref, ident, op, touched=False, fresh=False):
         """lib wrapper state against the reference (content) and against its identity snapshot; for a wrapper that
@@ -306,8 +365,8 @@ class Monitor:
                 if snap(w.fun) != ref.const:
                     bad.append("constant changed: %s" % short(snap(w.fun)))
                 return bad
-            if w.fun is not self.f:
-                bad.append("fun is no longer the user's function")
+            if w.fun is not self.fam[ref.fidx]["f"]:
+                bad.append("fun is not the user's function object that was wrapped")
             if list(w.args) != ref.args:
                 bad.append("args %s, expected %s" % (list(w.args), ref.args))
             keys = set(w.defaults.keys())
@@ -346,18 +405,23 @@ class Monitor:
                 self.count("shared_defaults_adopted")
                 continue
             bad = self.check_wrapper(w, ref, ident, op, touched=(w is target))
+            if bad and getattr(ref, "known_bad", False):
+                # already reported when it was created; from now on follow the library's state of this wrapper
+                entry[1] = self.resync(w, ref)
+                bad = []
             if bad:
                 self.flag("wrapper_changed" if w is not target else "wrapper_state",
                           "after %s %s wrapper: %s" % (op, "another (untouched)" if w is not target else "the target",
                                                        "; ".join(bad[:3])), op=op)
                 entry[1] = self.resync(w, ref)
             entry[2] = self.ident(w)
-        f = self.f
-        code, dobj, dvals, kwd, fdict, fname = self.f_snapshot
-        if f.__code__ is not code or f.__kwdefaults__ != kwd or dict(f.__dict__) != fdict or f.__name__ != fname:
-            self.flag("user_function_changed", "after %s the user's function object changed (code/kwdefaults/dict/name)" % op, op=op)
-        if f.__defaults__ is not dobj or any(a is not b for a, b in zip(f.__defaults__ or (), dvals)):
-            self.flag("user_function_changed", "after %s the user's function has other __defaults__ objects" % op, op=op)
+        for member in self.fam:
+            f = member["f"]
+            code, dobj, dvals, kwd, fdict, fname = member["snapshot"]
+            if f.__code__ is not code or f.__kwdefaults__ != kwd or dict(f.__dict__) != fdict or f.__name__ != fname:
+                self.flag("user_function_changed", "after %s the user's function object changed (code/kwdefaults/dict/name)" % op, op=op)
+            if f.__defaults__ is not dobj or any(a is not b for a, b in zip(f.__defaults__ or (), dvals)):
+                self.flag("user_function_changed", "after %s the user's function has other __defaults__ objects" % op, op=op)
         for desc, obj, content, kind in self.containers:
             if snap(obj) != content:
                 self.flag("user_container_changed", "after %s the user's %s changed: %s, before %s"
@@ -366,6 +430,7 @@ class Monitor:
 
     def resync(self, w, ref):
         r = ref.clone(ref.group)
+        r.pristine = False
         try:
             r.args = list(w.args)
             r.defaults = {k: snap(v) for k, v in w.defaults.items() if k in r.args}
@@ -430,7 +495,8 @@ class Monitor:
         if ref.pristine and self.acc is None:
             # Python's own binding semantics as the oracle for untouched wrappers
             try:
-                ba = self.sig.bind(**{k: env[k] for k in self.sig.parameters if k in env})
+                sig = self.fam[ref.fidx]["sig"]
+                ba = sig.bind(**{k: env[k] for k in sig.parameters if k in env})
                 ba.apply_defaults()
                 pyexp = {k: snap(v) for k, v in ba.arguments.items()}
             except TypeError as e:
@@ -438,6 +504,8 @@ class Monitor:
             if pyexp != exp:
                 raise Inconclusive("reference binding differs from inspect.signature binding")
             self.count("bindings_judged_by_inspect_signature")
+            if self.c.get("family") and ref.fidx != self.wrapped_order[0] and any(k not in env for k in ref.defaults):
+                self.count("family_later_member_default_bindings_judged")
         ok = True
         if sorted(rec["keys"]) != sorted(exp):
             extra = sorted(set(rec["keys"]) - set(exp))
@@ -577,8 +645,8 @@ class Monitor:
                 out[n] = [float(self.tagc)]
         return out
 
-    def op_partial(self):
-        entry = self.pick(lambda r: not r.is_const)
+    def op_partial(self, entry=None):
+        entry = entry or self.pick(lambda r: not r.is_const)
         if entry is None:
             return
         w, ref, _ = entry
@@ -756,26 +824,37 @@ class Monitor:
             self.flag("wrapper_state", "the re-wrapped function differs from its original: %s" % "; ".join(bad[:3]), op=op)
             self.pool[-1][1] = self.resync(w2, r2)
 
-    def op_wrap_again(self):
-        """a second, independent wrapper around the same user function"""
+    def op_wrap_again(self, fidx=None):
+        """another, independent wrapper around (a member of the family of) the user's function"""
         if self.c["construct"] != "plain" or self.acc is not None:
             return self.op_call()
+        if fidx is None:
+            fidx = int(self.rng.integers(0, len(self.fam)))
         cls2 = "Domain" if self.rng.random() < 0.4 else "User"
         self.count("op_wrap_again")
-        self.note("wrap_again", to=cls2)
+        if len(self.fam) > 1:
+            self.count("family_members_wrapped")
+        self.note("wrap_again", to=cls2, member=fidx)
         try:
-            w2 = self.cls_of(cls2)(self.f)
+            w2 = self.cls_of(cls2)(self.fam[fidx]["f"])
         except Exception as e:
             self.flag("exception", "%s(function) raised %r" % (cls2, e), op="wrap", exc=type(e).__name__, site=exc_site(e))
-            return
+            return None
         self.judged += 1
         self.check_world("wrap")
-        r2 = self.pristine_ref(cls2)
+        first = not self.wrapped_order or self.wrapped_order[0] == fidx
+        r2 = self.pristine_ref(cls2, fidx)
         self.add(w2, r2)
         bad = self.check_wrapper(w2, r2, self.pool[-1][2], "wrap", fresh=True)
         if bad:
-            self.flag("wrapper_state", "a fresh wrapper of the function: %s" % "; ".join(bad[:3]), op="wrap", pristine=True)
-            self.pool[-1][1] = self.resync(w2, r2)
+            self.flag("wrapper_state", "a fresh wrapper of %s: %s"
+                      % ("the function" if len(self.fam) == 1 else "member %d of the family (wrapped so far: members %s)"
+                         % (fidx, self.wrapped_order[:-1]), "; ".join(bad[:3])), op="wrap", pristine=True,
+                      shared_code_family=self.c.get("family"), first_of_its_code=first)
+            # the next call is still judged against Python's own signature of this function object;
+            # afterwards the reference follows the library's state (no second report for the same wrapper)
+            r2.known_bad = True
+        return self.pool[-1]
 
     def refresh_explicit(self):
         """set_default / remove_default may legitimately write into a defaults dict the user handed in"""
@@ -799,11 +878,12 @@ class Monitor:
                     dflt[n] = self.bound_values([n])[n]
             self.containers.append(("defaults dict given to the constructor", dflt, snap(dflt), "explicit_defaults"))
             self.containers.append(("args list given to the constructor", args, snap(args), "explicit_args"))
-            w = cls(self.f, defaults=dflt, args=args)
+            w = cls(self.fam[0]["f"], defaults=dflt, args=args)
             ref = RefWrapper(args, {k: snap(v) for k, v in dflt.items()}, self.new_group(), False, c["cls"])
             return w, ref
-        w = cls(self.f)
-        return w, self.pristine_ref(c["cls"])
+        j0 = int(self.rng.integers(0, len(self.fam)))
+        w = cls(self.fam[j0]["f"])
+        return w, self.pristine_ref(c["cls"], j0)
 
     OPS = [("call", 0.36), ("call_missing", 0.1), ("partial", 0.2), ("set_default", 0.1), ("remove_default", 0.05),
            ("deepcopy", 0.07), ("rewrap", 0.07), ("wrap_again", 0.05)]
@@ -827,6 +907,20 @@ class Monitor:
         p = np.array([x for _, x in self.OPS])
         p = p / p.sum()
         self.op_call()
+        if len(self.fam) > 1:
+            # the other members of the shared-code family are wrapped one after the other, each used at once
+            # (defaults only / random superset / full partial evaluation), interleaved with the random history
+            p[names.index("wrap_again")] *= 3.0
+            p = p / p.sum()
+            j0 = self.pool[0][1].fidx
+            for j in [int(x) for x in self.rng.permutation([k for k in range(len(self.fam)) if k != j0])]:
+                e = self.op_wrap_again(j)
+                if e is not None:
+                    self.op_call(e)
+                    if self.rng.random() < 0.5:
+                        self.op_partial(e)
+                for _ in range(int(self.rng.integers(0, 3))):
+                    getattr(self, "op_" + str(self.rng.choice(names, p=p)))()
         for _ in range(self.c["n_ops"]):
             getattr(self, "op_" + str(self.rng.choice(names, p=p)))()
 
@@ -858,8 +952,9 @@ def run_case(case):
     m = Monitor(case)
     m.run()
     kinds = "".join(sorted({k[0] + k[-1] for k in case["kinds"]}))
-    cls = "%s/p%d/d%d/%s/%s/%s%s" % (case["cls"], len(case["names"]), case["ndef"], kinds or "-", case["construct"],
-                                    case["variant"], "/lam" if case["lam"] else "")
+    cls = "%s/p%d/d%d/%s/%s/%s%s%s" % (case["cls"], len(case["names"]), case["ndef"], kinds or "-", case["construct"],
+                                      case["variant"], "/lam" if case["lam"] else "",
+                                      "/fam-%s%d" % (case["family"], case["fam_n"]) if case.get("family") else "")
     return {"cls": cls, "judged": m.judged, "nontrivial": m.calls_judged >= 1, "viol": m.viol, "counters": m.counters,
             "trace": m.trace[:10], "signature": getattr(m, "sigtext", "")}
 
